@@ -49,6 +49,7 @@ def run(prog, rep, tier='quick', config='default'):
     if not rep.anchor('first-day-of-window function', first):
         return
 
+    r10h(prog, rep)
     # ------------------------------------------------------------------ R10a
     n_cmp = 0
     for f in fns:
@@ -326,3 +327,49 @@ def run(prog, rep, tier='quick', config='default'):
         else:
             rep.violation('R10d', '%s|summary-rows-sorted-by-tx-order' % f.name, fn=f.name, where='%s:%d' % (f.file, f.line),
                           detail='the generated summary rows are not sorted with Tx\'s own ordering')
+
+
+def r10h(prog, rep):
+    """every security whose ledger was computed reaches the summary generator. Between the per-security results and the call of
+    make_aggregate_summary_txs the front end sorts them into "failed" (reported) and "ok" (summarised): on the Ok edge of the result every
+    path stores the deltas into the map the generator receives, before the next security is looked at. A position skipped there — because
+    the affiliate of its last transaction sold out, say — takes the other affiliates' holdings with it out of the summary."""
+    DMAP = re.compile(r'HashMap<std::string::String, std::vec::Vec<portfolio::model::txdelta::TxDelta')
+    n = 0
+    for f in prog.product_fns():
+        gen = [c for c in f.calls if c.callee.endswith('summary::make_aggregate_summary_txs')]
+        if not gen or mir.is_testsupport(f.name):
+            continue
+        mo = mir.provenance(f, gen[0].args[1] if DMAP.search(f.ty.get(gen[0].arg_local(1), '') or '') else gen[0].args[0])
+        maps = {l for l in mo.locals if DMAP.search((f.ty.get(l, '') or '').lstrip('&').replace('mut ', ''))}
+        for (nc, header, body) in f.iterator_loops():
+            ins = [c for c in f.calls if c.bb in body and c.short == 'insert' and (set(mir.provenance(f, c.args[0]).locals) | {c.arg_local(0)}) & maps]
+            if not ins:
+                continue
+            n += 1
+            k = '%s|every-computed-security-is-summarised' % f.name.split('::{')[0]
+            # the Ok edges of the per-security result inside the body
+            ok_entries = []
+            for i in body:
+                t = f.blocks[i]['term']
+                if t and t['t'] == 'switch' and is_place(t['discr']):
+                    dd = f.single_def(t['discr']['pl']['l'])
+                    dty = ''
+                    if dd and dd[2] == 'stmt' and dd[3]['r']['rv'] == 'discr':
+                        dty = dd[3]['r']['pl'].get('t') or f.ty.get(dd[3]['r']['pl']['l'], '') or ''
+                    if dty.startswith('std::result::Result<') and 'TxDelta' in dty:
+                        ok_t = [tg for v, tg in t['targets'] if v == 0] or [t['otherwise']]
+                        ok_entries.append(ok_t[0])
+            if not ok_entries:
+                rep.violation('R10h', 'anchor-lost:ok-edge', fn=f.name, detail='anchor lost: the test of a security\'s ledger result in the loop that fills the summary input')
+                continue
+            ins_bbs = {c.bb for c in ins}
+            bad = [e for e in ok_entries if e not in ins_bbs and header in ({e} | f.reachable_from(e, avoid=ins_bbs))]
+            if bad:
+                rep.violation('R10h', k, where=f.where(f.blocks[bad[0]]['term']) if f.blocks[bad[0]]['term'] else nc.where(), fn=f.name,
+                              detail='a security whose ledger was computed can be passed over without being stored for the summary generator: its holdings '
+                                     '(of every affiliate) are missing from the summary, and later rows no longer reproduce')
+            else:
+                rep.ok('R10h', k, where=ins[0].where(), fn=f.name, detail='on the Ok edge every path stores the security\'s deltas for the generator')
+    if n == 0:
+        rep.violation('R10h', 'anchor-lost:summary-input-loop', detail='anchor lost: the loop that fills the map handed to make_aggregate_summary_txs')
